@@ -200,8 +200,10 @@ func (se *Session) ExecInTask(q Query) (res *Result) {
 			res.Err = err
 			return
 		}
-		pd.PrefillRequiredFields = q.Prefill
+		// (set only when asked for: the handle Path returns is a new one with
+		// the default, so a caller need not reset it)
 		if q.Prefill {
+			pd.PrefillRequiredFields = true
 			s.Stats.fire("prefill")
 		}
 		if q.Limit != 0 {
